@@ -7,8 +7,12 @@ package main
 // A case = one run of a real command (binary built from the tree under check with -tags verif: recycled
 // buffers poisoned) on a generated input under one parallelism configuration:
 //
-//	run <scenario> seed= nrec= cpu= batch= gmp= rep= [in=stdin|file|gz] [aff=N]
-//	race <scenario> seed= nrec= cpu= batch= gmp= rep= [in=] [aff=]        (thorough: binary built with -race)
+//	run <scenario> seed= nrec= cpu= batch= gmp= rep= [in=stdin|file|gz] [aff=N] [env=var|both|f1|none]
+//	race <scenario> seed= nrec= cpu= batch= gmp= rep= [in=] [aff=] [env=]  (thorough: binary built with -race)
+//
+// env= : how cpu / batch reach the command (see c05Cfg.env): OBIMAXCPU / OBIBATCHSIZE instead of the options,
+// options against contradicting variables, --force-one-cpu with --max-cpu, neither. Group-by commands (obiuniq with
+// categories, obiclean) carry the model of the command itself on their case line: see c05_r3.go.
 //
 // cpu=0 is --force-one-cpu (the only way to get one P: the commands call runtime.GOMAXPROCS(--max-cpu)
 // themselves and turn --max-cpu 1 into 2, the GOMAXPROCS variable of the environment is overridden);
